@@ -106,8 +106,8 @@ static void do_sim(vf_case *c) {
 #define HAVE_ALT 1
 #define PPN(name) RLC_CAT(RLC_CAT(name, _k), RLC_GT_EMBED)
 static relt ALTB[2]; static int alt_ready[2] = {0, 0};
-/* finding L47: at K16_P330 the Tate and Weil pairings are not bilinear (relic's own test_pp fails in that build) */
-#define ALT_KF (RLC_GT_EMBED == 16 ? "L47-k16-tate-and-weil-pairings-not-bilinear" : NULL)
+/* finding L47: at K16_P330, K18_P354 and K18_P508 the Tate and Weil pairings are not bilinear (relic's own test_pp fails in those builds) */
+#define ALT_KF ((RLC_GT_EMBED == 16 || (RLC_GT_EMBED == 18 && (FP_PRIME == 354 || FP_PRIME == 508))) ? "L47-k16-tate-and-weil-pairings-not-bilinear" : NULL)
 static void alt_map(int mp, gt_t e, const g1_t P, const g2_t Q) { if (mp) PPN(pp_map_weilp)(e, P, Q); else PPN(pp_map_tatep)(e, P, Q); }
 static void alt_sim(int mp, gt_t e, const g1_t *P, const g2_t *Q, int m) { if (mp) PPN(pp_map_sim_weilp)(e, P, Q, m); else PPN(pp_map_sim_tatep)(e, P, Q, m); }
 static int alt_base(int mp) {
